@@ -27,7 +27,9 @@ func (m PropagateMatchersOptimizer) Optimize(expr parser.Expr) parser.Expr {
 		}
 
 		// TODO(fpetkovski): Investigate support for vector matching on a subset of labels.
-		if binOp.VectorMatching != nil && len(binOp.VectorMatching.MatchingLabels) > 0 {
+		// on() with an empty label list is a match on no labels at all, not the
+		// default match on all of them.
+		if binOp.VectorMatching != nil && (binOp.VectorMatching.On || len(binOp.VectorMatching.MatchingLabels) > 0) {
 			return
 		}
 
